@@ -11,9 +11,11 @@ from fv import common, design, tlc
 from fv.drivers import c03
 from fv.report import Report
 
-NAMES = ["a", "b", "c", "d", "e", "f", "g", "h", "i", "j", "k", "l"]
+NAMES = ["a", "b", "c", "d", "e", "f", "g", "h", "i", "j", "k", "l", "m", "n", "o", "p"]
 # level values need not be strings: integers, with 0 (a value that is false in Python) not in first place
-NAMESETS = {"str": NAMES, "int": [-1, 0, 1, 2, 3, 4, 5, 6, 7, 8, 9, 10]}
+NAMESETS = {"str": NAMES, "int": [-1, 0, 1, 2, 3, 4, 5, 6, 7, 8, 9, 10, 11, 12, 13, 14],
+            # integers whose text order differs from their numeric order (2 < 7 < 10 < 12 < 100, but '10' < '100' < '12' < '2' < '7')
+            "wide": [2, 7, 10, 12, 100, 101, 120, 1000, 1001, 1002, 1010, 1100, 2000, 2001, 2010, 3000]}
 
 
 def real_matrices(n, pos, kind="str"):
@@ -152,6 +154,31 @@ def _options_case(args):
     ]
     probs = []
     idx = [lv.index(x) for x in vals]
+    # without levels= the levels are the sorted values (numbers in numeric order): the reference / omitted level is given
+    # by its value, the defaults are the smallest / the largest
+    slv = sorted(lv)
+    spos = slv.index(ref) + 1
+    if storage == "str" and kind != "str":
+        sidx = [slv.index(x) for x in vals]
+        for call, red_key, full_key, sp in ((f"C(v, Treatment({q}))", "tr", "tf", table[(n, spos)]), (f"T(v, {q})", "tr", "tf", table[(n, spos)]), (f"S(v, {q})", "sr", "sf", table[(n, spos)]),
+                                            ("C(v)", "tr", "tf", table[(n, 1)]), ("T(v)", "tr", "tf", table[(n, 1)]), ("S(v)", "sr", "sf", table[(n, n)]), ("C(v, Sum)", "sr", "sf", table[(n, n)])):
+            for icpt, key in ((True, red_key), (False, full_key)):
+                text = "y ~ " + ("" if icpt else "0 + ") + call
+                st, dm = design.build(text, df)
+                base = {"formula": text, "data": vals, "storage": storage, "levels_arg": None}
+                if st != "ok":
+                    probs.append(({"clause": "exception_on_valid_coding_options", "exc": type(dm).__name__}, dict(base, error=str(dm)[:150])))
+                    continue
+                x = design.to_int_matrix(np.asarray(dm.common.design_matrix))
+                m = [list(r) for r in sp[key]["m"]]
+                want = [([1] if icpt else []) + m[i] for i in sidx]
+                labels = list(dm.common.as_dataframe().columns)
+                name = dm.common.terms[list(dm.common.terms)[-1]].name
+                want_labels = (["Intercept"] if icpt else []) + [f"{name}[{'mean' if l == 0 else slv[l - 1]}]" for l in sp[key]["labels"]]
+                if x != want:
+                    probs.append(({"clause": "default_level_order_or_coding_option_not_honoured", "call": call.split("(")[0] + ":" + key}, dict(base, got=x[:6], want=want[:6])))
+                elif labels != want_labels:
+                    probs.append(({"clause": "labels_do_not_name_the_levels", "call": call.split("(")[0] + ":" + key}, dict(base, got=labels, want=want_labels)))
     for call, red_key, full_key, sp in forms:
         for icpt, key in ((True, red_key), (False, full_key)):
             text = "y ~ " + ("" if icpt else "0 + ") + call
@@ -193,7 +220,7 @@ def main(tier, seed):
     common.use_repo()
     rep = Report("C13", tier, seed)
     rep.rule = (
-        "S->C: Coding_MC: every number of levels n <= 8 (quick) / 12 (thorough) x every reference / omitted level: the spec's "
+        "S->C: Coding_MC: every number of levels n <= 11 (quick) / 13 (thorough) x every reference / omitted level: the spec's "
         "matrices must be valid (exact ranks in TLA+) and the real Treatment/Sum matrices must equal them; C->S: the real matrices for "
         "n <= 12 judged by Coding_Trace; options: every permutation of <= 4 (quick) / 5 (thorough) levels passed as levels= x every "
         "reference x string and integer level values (incl. 0) x 10 spellings of C/T/S x with/without intercept compared with the spec's matrix rows and level labels; "
@@ -201,8 +228,8 @@ def main(tier, seed):
         "Non-trivial = distinct (n, position), (permutation, reference) and family cases."
     )
     rep.assumptions = ["interchangeability is decided on complete-factorial data (C03 domain)"]
-    table = spec_vs_code(rep, 8 if tier == "quick" else 12)
-    judge_real(rep, 12)
+    table = spec_vs_code(rep, 11 if tier == "quick" else 13)
+    judge_real(rep, 13)
     if table:
         options(rep, table, 4 if tier == "quick" else 5, seed)
     fam = c03.export_families(rep, "FactorsDef4", 2, 2)
